@@ -3,7 +3,7 @@ CONSTANTS
   Variants = {0, 1, 2, 3}
   LaxTolerated = {"nonMinimalInteger", "emptyOID", "printableIsLatin1", "printableIsT61"}
   AlwaysRejected = {"nonMinimalLength", "leadingZeroLength", "indefiniteLength", "nonMinimalTag", "truncated",
-                    "wrongTag", "requiredFieldMissing", "explicitEmpty", "emptyInteger", "integerTooLarge",
+                    "wrongTag", "requiredFieldMissing", "explicitPrimitive", "emptyInteger", "integerTooLarge",
                     "oidTruncatedArc", "oidArcTooLarge", "printableIsNeither", "badUTF8", "badIA5", "badNumeric",
                     "badBool", "boolTwoOctets", "badBitStringPadding", "bitStringPadTooBig", "emptyBitString", "badTime"}
   DeliberateDiff = {"oidArcLeading80", "highTagLeading80", "genTimeFraction", "setOfUnsorted"}
@@ -13,9 +13,11 @@ CONSTANTS
   TimeBoundaries = {1950, 2050}
   TimeMinutes <- MCTimeMinutes
   TimeOffsets <- MCTimeOffsets
+  StringFormShapes <- QuickStringShapes
 INIT Init
 NEXT Next
 INVARIANTS TypeOK LaxSuperset LaxOnlyDocumented LaxPropagates AncestorDepth LaxIsLocal StrictEqUpstream DiffsAreDiffs
            Rejected BenignAccepted RoundTrip TimeRoundTripDER ZoneOffsetRoundTrip TimeFormsAccepted TagByWrittenYear LengthRoundTrip LengthFormsRejected RawContentKeeps
-           ClassQuirkNamed ClassDefaultContext ClassRoundTrip ClassMismatch Export
+           ClassQuirkNamed ClassDefaultContext ClassRoundTrip ClassMismatch
+           ExplicitEmptyLaw StringFormLaw BmpIsUtf16 Export
 CHECK_DEADLOCK FALSE
